@@ -1,9 +1,105 @@
 import PyaisVerif.Lemmas.Tracker
 /-!
 # The tracker refines the abstract tracker; life cycle of events (generic part of C12, C15)
+
+Helper lemmas live in the namespace `Model.Refine`.
 -/
 namespace Model
 open Spec
+
+/-! ## list helpers: lookup by key in a list with unique keys -/
+
+abbrev Refine.KeysDistinct (l : List Track) : Prop := l.Pairwise (fun a b => a.mmsi ≠ b.mmsi)
+
+theorem Refine.find_mem_unique {l : List Track} (hk : Refine.KeysDistinct l) {t : Track} (ht : t ∈ l) :
+    l.find? (·.mmsi = t.mmsi) = some t := by
+  induction l with
+  | nil => cases ht
+  | cons x xs ih =>
+    rw [Refine.KeysDistinct, List.pairwise_cons] at hk
+    rcases List.mem_cons.1 ht with rfl | h
+    · simp
+    · have : x.mmsi ≠ t.mmsi := hk.1 t h
+      simp [this, ih hk.2 h]
+
+theorem Refine.find_key {l : List Track} {m : Int} {t : Track} (h : l.find? (·.mmsi = m) = some t) :
+    t.mmsi = m ∧ t ∈ l := by
+  have h1 := List.find?_some h
+  have h2 := List.mem_of_find?_eq_some h
+  simp at h1
+  exact ⟨h1, h2⟩
+
+theorem Refine.find_none_key {l : List Track} {m : Int} (h : l.find? (·.mmsi = m) = none) :
+    ∀ t ∈ l, t.mmsi ≠ m := by
+  rw [List.find?_eq_none] at h
+  intro t ht; simpa using h t ht
+
+/-- with unique keys, the tracks with key `m` are the looked-up track -/
+theorem Refine.filter_key_eq {l : List Track} (hk : Refine.KeysDistinct l) (m : Int) :
+    l.filter (fun t => decide (t.mmsi = m)) = (l.find? (·.mmsi = m)).toList := by
+  induction l with
+  | nil => rfl
+  | cons x xs ih =>
+    rw [Refine.KeysDistinct, List.pairwise_cons] at hk
+    by_cases hx : x.mmsi = m
+    · have : xs.filter (fun t => decide (t.mmsi = m)) = [] := by
+        rw [List.filter_eq_nil_iff]
+        intro t ht; subst hx; simpa using fun h => hk.1 t ht h.symm
+      simp [hx, this]
+    · simp [hx, ih hk.2]
+
+/-- with unique keys, lookup in a filtered list is the filtered lookup -/
+theorem Refine.find_filter {l : List Track} (hk : Refine.KeysDistinct l) (p : Track → Bool) (m : Int) :
+    (l.filter p).find? (·.mmsi = m) = (l.find? (·.mmsi = m)).filter p := by
+  induction l with
+  | nil => rfl
+  | cons x xs ih =>
+    rw [Refine.KeysDistinct, List.pairwise_cons] at hk
+    by_cases hx : x.mmsi = m
+    · by_cases hp : p x = true
+      · simp [hp, hx, Option.filter]
+      · have hnone : (xs.filter p).find? (·.mmsi = m) = none := by
+          rw [List.find?_eq_none]
+          intro t ht
+          have := hk.1 t (List.mem_filter.1 ht).1
+          subst hx; simpa using fun h => this h.symm
+        simp [hp, hx, Option.filter, hnone]
+    · by_cases hp : p x = true
+      · simp [hp, hx, ih hk.2]
+      · simp [hp, hx, ih hk.2]
+
+theorem Refine.any_key_eq (l : List Track) (m : Int) :
+    l.any (·.mmsi = m) = (l.find? (·.mmsi = m)).isSome := by
+  rw [Bool.eq_iff_iff, List.any_eq_true, List.find?_isSome]
+
+/-- split a list with unique keys at key `m` -/
+theorem Refine.perm_split_key {l : List Track} (hk : Refine.KeysDistinct l) (m : Int) :
+    l.Perm (l.filter (·.mmsi ≠ m) ++ (l.find? (·.mmsi = m)).toList) := by
+  rw [← Refine.filter_key_eq hk m]
+  have h := List.filter_append_perm (fun t : Track => decide (t.mmsi ≠ m)) l
+  refine h.symm.trans ?_
+  apply List.Perm.append_left
+  apply List.Perm.of_eq
+  apply List.filter_congr
+  intro x _; simp
+
+/-- lookup after removing key `m` (no uniqueness needed) -/
+theorem Refine.find_filter_ne (l : List Track) (m k : Int) :
+    (l.filter (·.mmsi ≠ m)).find? (·.mmsi = k) = if k = m then none else l.find? (·.mmsi = k) := by
+  induction l with
+  | nil => simp
+  | cons x xs ih =>
+    by_cases hx : x.mmsi = m
+    · by_cases hk : k = m
+      · simp_all
+      · have : ¬ m = k := fun h => hk h.symm
+        simp_all
+    · by_cases hxk : x.mmsi = k
+      · have : ¬ k = m := fun h => hx (hxk.trans h)
+        simp [hxk, this]
+      · simp_all
+
+/-! ## abstraction -/
 
 /-- abstraction relation between a concrete run and the abstract machine -/
 structure Abs (r : TrkRun) (a : AState) : Prop where
@@ -15,25 +111,341 @@ structure Abs (r : TrkRun) (a : AState) : Prop where
 
 theorem abs_init (ordered : Bool) (ttl : Option Int) :
     Abs { st := { ordered := ordered, ttl := ttl } } (AState.init ordered ttl) := by
-  sorry
+  constructor <;> simp [AState.init]
+
+/-- the verdict of `update` is the conjunction of the order check and the own-track check -/
+theorem Refine.update_verdict (s : TrkState) (m : Int) (attrs : List (String × Val)) (ts now : Int) :
+    (update s m attrs ts now).2.2 =
+      ((match s.ordered, s.tracks.getLast? with
+        | true, some latest => !(decide (ts < latest.lu))
+        | _, _ => true) &&
+       (match s.tracks.find? (·.mmsi = m) with
+        | some old => !(decide (ts < old.lu))
+        | none => true)) := by
+  unfold update
+  cases hf : s.tracks.find? (·.mmsi = m) with
+  | none =>
+    cases ho : s.ordered <;> cases hl : s.tracks.getLast? <;> simp <;> split <;> simp_all
+  | some old =>
+    by_cases hlt : ts < old.lu
+    · cases ho : s.ordered <;> cases hl : s.tracks.getLast? <;> simp [hlt]
+    · cases ho : s.ordered <;> cases hl : s.tracks.getLast? <;> simp [hlt] <;> split <;> simp_all
+
+/-- in a list sorted by `lu` the last element dominates -/
+theorem Refine.last_check_eq_all (l : List Track) (hs : l.Pairwise (fun a b => a.lu ≤ b.lu)) (ts : Int) :
+    (match l.getLast? with
+     | some latest => !(decide (ts < latest.lu))
+     | none => true) = l.all (fun t => !(decide (ts < t.lu))) := by
+  cases hl : l.getLast? with
+  | none =>
+    rw [List.getLast?_eq_none_iff] at hl; subst hl; rfl
+  | some last =>
+    obtain ⟨ys, rfl⟩ := List.getLast?_eq_some_iff.1 hl
+    rw [List.pairwise_append] at hs
+    have hle : ∀ t ∈ ys, t.lu ≤ last.lu := fun t ht => hs.2.2 t ht last (by simp)
+    rw [Bool.eq_iff_iff, List.all_eq_true]
+    simp only [Bool.not_eq_true', decide_eq_false_iff_not, List.mem_append, List.mem_singleton]
+    constructor
+    · rintro h t (ht | rfl)
+      · have := hle t ht; omega
+      · exact h
+    · intro h; exact h last (Or.inr rfl)
+
+theorem Refine.order_check_eq (s : TrkState) (hinv : TrkInv s) (ts : Int) :
+    (match s.ordered, s.tracks.getLast? with
+      | true, some latest => !(decide (ts < latest.lu))
+      | _, _ => true) = (!s.ordered || s.tracks.all (fun t => !(decide (ts < t.lu)))) := by
+  cases ho : s.ordered with
+  | false => simp
+  | true =>
+    rw [← Refine.last_check_eq_all _ (hinv.sorted ho)]
+    cases s.tracks.getLast? <;> simp
+
+theorem Refine.abs_keys_all (r : TrkRun) (a : AState) (hinv : TrkInv r.st) (habs : Abs r a) (ts : Int) :
+    (a.keys.all fun k => match a.get k with
+      | some t => !(decide (ts < t.lu))
+      | none => true) = r.st.tracks.all (fun t => !(decide (ts < t.lu))) := by
+  rw [habs.keys.all_eq, List.all_map]
+  rw [Bool.eq_iff_iff, List.all_eq_true, List.all_eq_true]
+  have : ∀ t ∈ r.st.tracks, a.get t.mmsi = some { attrs := t.attrs, lu := t.lu } := by
+    intro t ht; rw [habs.get, Refine.find_mem_unique hinv.keys ht]; rfl
+  constructor
+  · intro h t ht; have h' := h t ht; simp only [Function.comp, this t ht] at h'; exact h'
+  · intro h t ht; simp only [Function.comp, this t ht]; exact h t ht
 
 /-- the concrete acceptance test (own track; last dict entry in ordered mode) is the abstract one
 (own track; every track in ordered mode) -/
 theorem accepts_iff (r : TrkRun) (a : AState) (hinv : TrkInv r.st) (habs : Abs r a)
     (m : Int) (attrs : List (String × Val)) (ts : Int) :
     (update r.st m attrs ts r.now).2.2 = a.accepts m ts := by
-  sorry
+  unfold AState.accepts
+  rw [Refine.update_verdict, Refine.order_check_eq _ hinv, Bool.and_comm]
+  congr 1
+  · rw [habs.get]
+    cases r.st.tracks.find? (·.mmsi = m) <;> rfl
+  · rw [habs.ordered]
+    congr 1
+    exact (Refine.abs_keys_all r a hinv habs ts).symm
+
+/-! ## refinement of single steps -/
+
+theorem Refine.abs_congr {r r' : TrkRun} {a : AState} (hst : r'.st = r.st) (hnow : r'.now = r.now)
+    (habs : Abs r a) : Abs r' a := by
+  constructor
+  · rw [hst]; exact habs.ttl
+  · rw [hst]; exact habs.ordered
+  · rw [hnow]; exact habs.now
+  · rw [hst]; exact habs.keys
+  · rw [hst]; exact habs.get
+
+theorem Refine.abs_isStale {r : TrkRun} {a : AState} (habs : Abs r a) (k : Int) :
+    a.isStale k = (r.st.tracks.find? (·.mmsi = k)).any (fun t => staleAt r.st.ttl r.now t.lu) := by
+  unfold AState.isStale
+  rw [habs.get, habs.ttl, habs.now]
+  cases r.st.tracks.find? (·.mmsi = k) <;> rfl
+
+/-- expiry: the concrete early-exit scan and the abstract exact filter agree -/
+theorem Refine.abs_expire {r r' : TrkRun} {a : AState} (hinv : TrkInv r.st) (habs : Abs r a)
+    (hst : r'.st = (cleanup r.st r.now).1) (hnow : r'.now = r.now) : Abs r' a.expire := by
+  obtain ⟨htr, _, httl, hord⟩ := cleanup_exact r.st hinv r.now
+  have hstale' : ∀ t ∈ r.st.tracks, a.isStale t.mmsi = staleAt r.st.ttl r.now t.lu := by
+    intro t ht; rw [Refine.abs_isStale habs, Refine.find_mem_unique hinv.keys ht]; rfl
+  constructor
+  · rw [hst, httl]; exact habs.ttl
+  · rw [hst, hord]; exact habs.ordered
+  · rw [hnow]; exact habs.now
+  · rw [hst, htr]
+    show (a.keys.filter (fun m => !a.isStale m)).Perm _
+    refine (habs.keys.filter _).trans ?_
+    rw [List.filter_map]
+    apply List.Perm.of_eq
+    congr 1
+    apply List.filter_congr
+    intro t ht; simp [Function.comp, hstale' t ht]
+  · intro k
+    rw [hst, htr, Refine.find_filter hinv.keys]
+    show (if a.isStale k then none else a.get k) = _
+    rw [Refine.abs_isStale habs, habs.get]
+    cases r.st.tracks.find? (·.mmsi = k) with
+    | none => simp
+    | some t => by_cases h : staleAt r.st.ttl r.now t.lu = true <;> simp [Option.filter, h]
+
+theorem Refine.popTrack_fst (s : TrkState) (m : Int) :
+    (popTrack s m).1 = { s with tracks := s.tracks.filter (·.mmsi ≠ m) } := by
+  unfold popTrack
+  cases hf : s.tracks.find? (·.mmsi = m) with
+  | some t => rfl
+  | none =>
+    have : s.tracks.filter (·.mmsi ≠ m) = s.tracks := by
+      rw [List.filter_eq_self]; intro t ht; simpa using Refine.find_none_key hf t ht
+    simp only [this]
+
+theorem Refine.abs_remove {r r' : TrkRun} {a : AState} (habs : Abs r a) (m : Int)
+    (hst : r'.st = (popTrack r.st m).1) (hnow : r'.now = r.now) : Abs r' (a.remove m) := by
+  rw [Refine.popTrack_fst] at hst
+  constructor
+  · rw [hst]; exact habs.ttl
+  · rw [hst]; exact habs.ordered
+  · rw [hnow]; exact habs.now
+  · rw [hst]
+    show (a.keys.filter (· ≠ m)).Perm ((r.st.tracks.filter (·.mmsi ≠ m)).map (·.mmsi))
+    refine (habs.keys.filter _).trans ?_
+    rw [List.filter_map]
+    apply List.Perm.of_eq
+    congr 1
+  · intro k
+    rw [hst]
+    show (if k = m then none else a.get k) = ((r.st.tracks.filter (·.mmsi ≠ m)).find? (·.mmsi = k)).map _
+    rw [Refine.find_filter_ne, habs.get]
+    by_cases hk : k = m <;> simp [hk]
+
+/-! ### insertion (the first half of an accepted `update`) -/
+
+def Refine.mergedTrack (s : TrkState) (m : Int) (attrs : List (String × Val)) (ts : Int) : Track :=
+  match s.tracks.find? (·.mmsi = m) with
+  | some old => { mmsi := m, attrs := mergeAttrs old.attrs attrs, lu := ts }
+  | none => { mmsi := m, attrs := attrs, lu := ts }
+
+def Refine.insertState (s : TrkState) (m : Int) (attrs : List (String × Val)) (ts : Int) : TrkState :=
+  { s with tracks := s.tracks.filter (·.mmsi ≠ m) ++ [Refine.mergedTrack s m attrs ts],
+           oldest := setOldest s.oldest ts }
+
+def Refine.mergedA (a : AState) (m : Int) (attrs : List (String × Val)) (ts : Int) : ATrack :=
+  match a.get m with
+  | some old => { attrs := mergeA old.attrs attrs, lu := ts }
+  | none => { attrs := attrs, lu := ts }
+
+def Refine.insertA (a : AState) (m : Int) (attrs : List (String × Val)) (ts : Int) : AState :=
+  { a with keys := if a.keys.contains m then a.keys else a.keys ++ [m],
+           get := fun k => if k = m then some (Refine.mergedA a m attrs ts) else a.get k }
+
+theorem Refine.update_accepted' (s : TrkState) (m : Int) (attrs : List (String × Val)) (ts now : Int)
+    (h : (update s m attrs ts now).2.2 = true) :
+    (update s m attrs ts now).1 = (cleanup (Refine.insertState s m attrs ts) now).1 ∧
+    (update s m attrs ts now).2.1 =
+      ((if (s.tracks.find? (·.mmsi = m)).isSome then Ev.updated else Ev.created), m) ::
+        (cleanup (Refine.insertState s m attrs ts) now).2 :=
+  update_accepted s m attrs ts now h
+
+theorem Refine.step_update (a : AState) (m : Int) (attrs : List (String × Val)) (ts : Option Int) :
+    a.step (.update m attrs ts) =
+      if a.accepts m (ts.getD a.now) then (Refine.insertA a m attrs (ts.getD a.now)).expire else a := rfl
+
+theorem Refine.mergedTrack_mmsi (s : TrkState) (m : Int) (attrs : List (String × Val)) (ts : Int) :
+    (Refine.mergedTrack s m attrs ts).mmsi = m := by
+  unfold Refine.mergedTrack; split <;> rfl
+
+theorem Refine.mergedTrack_lu (s : TrkState) (m : Int) (attrs : List (String × Val)) (ts : Int) :
+    (Refine.mergedTrack s m attrs ts).lu = ts := by
+  unfold Refine.mergedTrack; split <;> rfl
+
+/-- the state between insertion and expiry satisfies the invariants (`inv_update` only speaks about
+the state after expiry) -/
+theorem Refine.inv_insert (s : TrkState) (hinv : TrkInv s) (m : Int) (attrs : List (String × Val)) (ts now : Int)
+    (h : (update s m attrs ts now).2.2 = true) : TrkInv (Refine.insertState s m attrs ts) := by
+  rw [Refine.update_verdict, Refine.order_check_eq _ hinv] at h
+  have hord : s.ordered = true → ∀ t ∈ s.tracks, t.lu ≤ ts := by
+    intro ho t ht
+    simp only [ho, Bool.not_true, Bool.false_or, Bool.and_eq_true, List.all_eq_true] at h
+    have := h.1 t ht
+    simp at this; exact this
+  constructor
+  · show (s.tracks.filter (·.mmsi ≠ m) ++ [Refine.mergedTrack s m attrs ts]).Pairwise _
+    rw [List.pairwise_append]
+    refine ⟨hinv.keys.filter _, List.pairwise_singleton _ _, ?_⟩
+    intro x hx y hy
+    rw [List.mem_singleton] at hy; subst hy
+    rw [Refine.mergedTrack_mmsi]
+    simpa using (List.mem_filter.1 hx).2
+  · intro o ho t ht
+    change setOldest s.oldest ts = some o at ho
+    change t ∈ s.tracks.filter (·.mmsi ≠ m) ++ [Refine.mergedTrack s m attrs ts] at ht
+    rw [List.mem_append, List.mem_singleton] at ht
+    cases hso : s.oldest with
+    | none =>
+      rw [hso] at ho
+      simp only [setOldest, Option.some.injEq] at ho
+      have hnil : s.tracks = [] := by
+        cases hn : s.tracks with
+        | nil => rfl
+        | cons _ _ => exact absurd hso (hinv.cached (by rw [hn]; simp))
+      rcases ht with ht | rfl
+      · rw [hnil] at ht; simp at ht
+      · rw [Refine.mergedTrack_lu]; omega
+    | some x =>
+      rw [hso] at ho
+      simp only [setOldest, Option.some.injEq] at ho
+      rcases ht with ht | rfl
+      · have := hinv.lower x hso t (List.mem_filter.1 ht).1
+        omega
+      · rw [Refine.mergedTrack_lu]; omega
+  · intro _
+    show setOldest s.oldest ts ≠ none
+    unfold setOldest; split <;> simp
+  · intro ho
+    change s.ordered = true at ho
+    show (s.tracks.filter (·.mmsi ≠ m) ++ [Refine.mergedTrack s m attrs ts]).Pairwise _
+    rw [List.pairwise_append]
+    refine ⟨(hinv.sorted ho).filter _, List.pairwise_singleton _ _, ?_⟩
+    intro x hx y hy
+    rw [List.mem_singleton] at hy; subst hy
+    rw [Refine.mergedTrack_lu]
+    exact hord ho x (List.mem_filter.1 hx).1
+
+theorem Refine.abs_insert {r r' : TrkRun} {a : AState} (hinv : TrkInv r.st) (habs : Abs r a)
+    (m : Int) (attrs : List (String × Val)) (ts : Int)
+    (hst : r'.st = Refine.insertState r.st m attrs ts) (hnow : r'.now = r.now) :
+    Abs r' (Refine.insertA a m attrs ts) := by
+  constructor
+  · rw [hst]; exact habs.ttl
+  · rw [hst]; exact habs.ordered
+  · rw [hnow]; exact habs.now
+  · rw [hst]
+    show (if a.keys.contains m then a.keys else a.keys ++ [m]).Perm
+      ((r.st.tracks.filter (·.mmsi ≠ m) ++ [Refine.mergedTrack r.st m attrs ts]).map (·.mmsi))
+    have hk := habs.keys.trans ((Refine.perm_split_key hinv.keys m).map (·.mmsi))
+    rw [List.map_append, List.map_singleton, Refine.mergedTrack_mmsi]
+    cases hf : r.st.tracks.find? (·.mmsi = m) with
+    | none =>
+      have hc : a.keys.contains m = false := by
+        rw [habs.keys.contains_eq]
+        simpa using Refine.find_none_key hf
+      rw [hf] at hk
+      simp only [hc, Option.toList_none, List.append_nil] at hk ⊢
+      exact hk.append_right [m]
+    | some old =>
+      have hm := Refine.find_key hf
+      have hc : m ∈ a.keys := habs.keys.mem_iff.2 (List.mem_map.2 ⟨old, hm.2, hm.1⟩)
+      rw [hf] at hk
+      simpa [hc, hm.1] using hk
+  · intro k
+    rw [hst]
+    show (if k = m then some (Refine.mergedA a m attrs ts) else a.get k) =
+      ((r.st.tracks.filter (·.mmsi ≠ m) ++ [Refine.mergedTrack r.st m attrs ts]).find? (·.mmsi = k)).map _
+    rw [List.find?_append, Refine.find_filter_ne]
+    by_cases hk : k = m
+    · subst hk
+      simp only [↓reduceIte, Option.none_or, List.find?_cons, Refine.mergedTrack_mmsi, decide_true,
+        Option.map_some]
+      unfold Refine.mergedA Refine.mergedTrack
+      rw [habs.get]
+      cases r.st.tracks.find? (·.mmsi = k) <;> rfl
+    · have : ¬ m = k := fun h => hk h.symm
+      simp [hk, Refine.mergedTrack_mmsi, this, habs.get]
+
+theorem Refine.trkStep_update (r : TrkRun) (m : Int) (attrs : List (String × Val)) (ts : Option Int) :
+    trkStep r (.update m attrs ts) =
+      { r with st := (update r.st m attrs (ts.getD r.now) r.now).1,
+               events := r.events ++ (update r.st m attrs (ts.getD r.now) r.now).2.1,
+               verdicts := r.verdicts ++ [(update r.st m attrs (ts.getD r.now) r.now).2.2] } := rfl
+
+theorem Refine.trkStep_pop (r : TrkRun) (m : Int) :
+    trkStep r (.pop m) =
+      { r with st := (popTrack r.st m).1, events := r.events ++ (popTrack r.st m).2.1 } := rfl
+
+theorem Refine.trkStep_cleanup (r : TrkRun) :
+    trkStep r .cleanup =
+      { r with st := (cleanup r.st r.now).1, events := r.events ++ (cleanup r.st r.now).2 } := rfl
 
 /-- **Refinement step.** -/
 theorem refine_step (r : TrkRun) (a : AState) (hinv : TrkInv r.st) (habs : Abs r a) (op : TrkOp) :
     Abs (trkStep r op) (a.step op) := by
-  sorry
+  cases op with
+  | update m attrs ts =>
+    have hv := accepts_iff r a hinv habs m attrs (ts.getD r.now)
+    rw [Refine.step_update, habs.now, ← hv, Refine.trkStep_update]
+    cases hacc : (update r.st m attrs (ts.getD r.now) r.now).2.2 with
+    | false =>
+      have := update_rejected _ _ _ _ _ hacc
+      exact Refine.abs_congr this.1 rfl habs
+    | true =>
+      have hup := Refine.update_accepted' _ _ _ _ _ hacc
+      let r1 : TrkRun := { r with st := Refine.insertState r.st m attrs (ts.getD r.now) }
+      have hinv1 : TrkInv r1.st := Refine.inv_insert _ hinv _ _ _ _ hacc
+      have habs1 : Abs r1 (Refine.insertA a m attrs (ts.getD r.now)) := Refine.abs_insert hinv habs _ _ _ rfl rfl
+      exact Refine.abs_expire hinv1 habs1 hup.1 rfl
+  | pop m => exact Refine.abs_remove habs m rfl rfl
+  | cleanup => exact Refine.abs_expire hinv habs rfl rfl
+  | tick t =>
+    exact ⟨habs.ttl, habs.ordered, rfl, habs.keys, habs.get⟩
+  | setTtl ttl =>
+    exact ⟨rfl, habs.ordered, habs.now, habs.keys, habs.get⟩
+
+/-! ## whole histories -/
+
+theorem Refine.refine_run_gen (ops : List TrkOp) : ∀ (r : TrkRun) (a : AState), TrkInv r.st → Abs r a →
+    TrkInv (ops.foldl trkStep r).st ∧ Abs (ops.foldl trkStep r) (ops.foldl AState.step a) := by
+  induction ops with
+  | nil => intro r a hinv habs; exact ⟨hinv, habs⟩
+  | cons op ops ih =>
+    intro r a hinv habs
+    exact ih _ _ (inv_step r hinv op) (refine_step r a hinv habs op)
 
 /-- **Refinement.** After any history the concrete tracker holds exactly what the abstract tracker
 holds. -/
 theorem refine_run (ordered : Bool) (ttl : Option Int) (ops : List TrkOp) :
-    Abs (trkRun ordered ttl ops) (AState.run ordered ttl ops) := by
-  sorry
+    Abs (trkRun ordered ttl ops) (AState.run ordered ttl ops) :=
+  (Refine.refine_run_gen ops _ _ (inv_init ordered ttl) (abs_init ordered ttl)).2
 
 /-- per-update verdicts agree with the abstract acceptance rule along the whole history -/
 def specVerdicts (ordered : Bool) (ttl : Option Int) : List TrkOp → List Bool
@@ -42,9 +454,39 @@ def specVerdicts (ordered : Bool) (ttl : Option Int) : List TrkOp → List Bool
       | .update m _ ts => (acc.1.step op, acc.2 ++ [acc.1.accepts m (ts.getD acc.1.now)])
       | _ => (acc.1.step op, acc.2)) (AState.init ordered ttl, [])).2
 
+/-- the step function folded by `specVerdicts` -/
+def Refine.verdictStep (acc : AState × List Bool) (op : TrkOp) : AState × List Bool :=
+  match op with
+  | .update m _ ts => (acc.1.step op, acc.2 ++ [acc.1.accepts m (ts.getD acc.1.now)])
+  | _ => (acc.1.step op, acc.2)
+
+theorem Refine.specVerdicts_eq (ordered : Bool) (ttl : Option Int) (ops : List TrkOp) :
+    specVerdicts ordered ttl ops = (ops.foldl Refine.verdictStep (AState.init ordered ttl, [])).2 := rfl
+
+theorem Refine.verdictStep_eq (r : TrkRun) (a : AState) (hinv : TrkInv r.st) (habs : Abs r a) (op : TrkOp) :
+    Refine.verdictStep (a, r.verdicts) op = (a.step op, (trkStep r op).verdicts) := by
+  cases op with
+  | update m attrs ts =>
+    show (_, r.verdicts ++ [a.accepts m (ts.getD a.now)]) = (_, _)
+    rw [Refine.trkStep_update, habs.now, ← accepts_iff r a hinv habs m attrs]
+  | pop m => rfl
+  | cleanup => rfl
+  | tick t => rfl
+  | setTtl ttl => rfl
+
+theorem Refine.verdicts_gen (ops : List TrkOp) : ∀ (r : TrkRun) (a : AState), TrkInv r.st → Abs r a →
+    (ops.foldl trkStep r).verdicts = (ops.foldl Refine.verdictStep (a, r.verdicts)).2 := by
+  induction ops with
+  | nil => intro r a _ _; rfl
+  | cons op ops ih =>
+    intro r a hinv habs
+    rw [List.foldl_cons, List.foldl_cons, Refine.verdictStep_eq r a hinv habs]
+    exact ih _ _ (inv_step r hinv op) (refine_step r a hinv habs op)
+
 theorem verdicts_run (ordered : Bool) (ttl : Option Int) (ops : List TrkOp) :
     (trkRun ordered ttl ops).verdicts = specVerdicts ordered ttl ops := by
-  sorry
+  rw [Refine.specVerdicts_eq]
+  exact Refine.verdicts_gen ops _ _ (inv_init ordered ttl) (abs_init ordered ttl)
 
 /-- the value of an attribute after a merge: the new value if the new message carries one,
 otherwise the old value -/
@@ -56,23 +498,170 @@ theorem mergeAttrs_lookup (old new : List (String × Val)) (a : String) :
          | some .none => some v
          | some w => some w
          | none => some v) := by
-  sorry
+  induction old with
+  | nil => rfl
+  | cons x xs ih =>
+    obtain ⟨n, v⟩ := x
+    have hcons : mergeAttrs ((n, v) :: xs) new =
+        (match new.lookup n with
+         | some .none => (n, v)
+         | some w => (n, w)
+         | none => (n, v)) :: mergeAttrs xs new := rfl
+    rw [hcons]
+    by_cases h : a = n
+    · subst h
+      cases hn : new.lookup a with
+      | none => simp
+      | some w => cases w <;> simp
+    · have h' : (a == n) = false := by simpa using h
+      cases hn : new.lookup n with
+      | none => simp [List.lookup_cons, h', ih]
+      | some w => cases w <;> simp [List.lookup_cons, h', ih]
 
 /-! ## events -/
+
+theorem Refine.lifeRun_append (m : Int) (e1 e2 : List (Ev × Int)) :
+    lifeRun m (e1 ++ e2) =
+      (e2.filter (·.2 = m)).foldl (fun a e => lifeStep a e.1) (lifeRun m e1) := by
+  unfold lifeRun; rw [List.filter_append, List.foldl_append]
+
+/-- `pop_track` fires DELETED exactly once iff the track existed -/
+theorem Refine.popTrack_events (s : TrkState) (m : Int) :
+    (popTrack s m).2.1 = if s.tracks.any (·.mmsi = m) then [(Ev.deleted, m)] else [] := by
+  rw [Refine.any_key_eq]
+  unfold popTrack
+  cases s.tracks.find? (·.mmsi = m) <;> rfl
+
+/-- every event fired by `cleanup` is a DELETED event (no invariant needed) -/
+theorem Refine.cleanup_events_deleted (s : TrkState) (now : Int) :
+    ∀ e ∈ (cleanup s now).2, e.1 = Ev.deleted := by
+  unfold cleanup
+  intro e he
+  split at he
+  · split at he
+    · simp at he
+    · simp only [List.mem_map] at he
+      obtain ⟨_, _, rfl⟩ := he
+      rfl
+  · simp at he
+
+/-- the DELETED events of an expiry that concern `m`: one iff `m` has a stale track -/
+theorem Refine.cleanup_events_key (s : TrkState) (hinv : TrkInv s) (now : Int) (m : Int) :
+    (cleanup s now).2.filter (·.2 = m) =
+      if (s.tracks.find? (·.mmsi = m)).any (fun t => staleAt s.ttl now t.lu)
+      then [(Ev.deleted, m)] else [] := by
+  obtain ⟨_, hev, _, _⟩ := cleanup_exact s hinv now
+  have h1 := hev.filter (fun e => decide (e.2 = m))
+  rw [List.filter_map] at h1
+  have h2 : (s.tracks.filter (fun t => staleAt s.ttl now t.lu)).filter
+        ((fun e : Ev × Int => decide (e.2 = m)) ∘ fun t => (Ev.deleted, t.mmsi)) =
+      ((s.tracks.find? (·.mmsi = m)).toList).filter (fun t => staleAt s.ttl now t.lu) := by
+    rw [← Refine.filter_key_eq hinv.keys, List.filter_filter, List.filter_filter]
+    apply List.filter_congr
+    intro x _; simp [Bool.and_comm]
+  rw [h2] at h1
+  cases hf : s.tracks.find? (·.mmsi = m) with
+  | none =>
+    rw [hf] at h1
+    simpa using h1
+  | some t =>
+    have hm := (Refine.find_key hf).1
+    rw [hf] at h1
+    by_cases hs : staleAt s.ttl now t.lu = true
+    · simpa [hs, hm] using h1
+    · simpa [hs] using h1
+
+theorem Refine.cleanup_any_key (s : TrkState) (hinv : TrkInv s) (now : Int) (m : Int) :
+    (cleanup s now).1.tracks.any (·.mmsi = m) =
+      (s.tracks.find? (·.mmsi = m)).any (fun t => !staleAt s.ttl now t.lu) := by
+  rw [(cleanup_exact s hinv now).1, Refine.any_key_eq, Refine.find_filter hinv.keys]
+  cases s.tracks.find? (·.mmsi = m) with
+  | none => rfl
+  | some t => by_cases hs : staleAt s.ttl now t.lu = true <;> simp [Option.filter, hs]
+
+/-- expiry advances the life-cycle acceptor of every MMSI consistently -/
+theorem Refine.life_cleanup (s : TrkState) (hinv : TrkInv s) (now : Int) (m : Int) :
+    ((cleanup s now).2.filter (·.2 = m)).foldl (fun a e => lifeStep a e.1)
+        (some (s.tracks.any (·.mmsi = m))) =
+      some ((cleanup s now).1.tracks.any (·.mmsi = m)) := by
+  rw [Refine.cleanup_events_key s hinv, Refine.cleanup_any_key s hinv, Refine.any_key_eq]
+  cases s.tracks.find? (·.mmsi = m) with
+  | none => rfl
+  | some t => by_cases hs : staleAt s.ttl now t.lu = true <;> simp [hs, lifeStep]
+
+theorem Refine.insert_any_key (s : TrkState) (m' : Int) (attrs : List (String × Val)) (ts : Int) (m : Int) :
+    (Refine.insertState s m' attrs ts).tracks.any (·.mmsi = m) =
+      if m = m' then true else s.tracks.any (·.mmsi = m) := by
+  rw [Refine.any_key_eq, Refine.any_key_eq]
+  show ((s.tracks.filter (·.mmsi ≠ m') ++ [Refine.mergedTrack s m' attrs ts]).find? (·.mmsi = m)).isSome = _
+  rw [List.find?_append, Refine.find_filter_ne]
+  by_cases hk : m = m'
+  · simp [hk, Refine.mergedTrack_mmsi]
+  · have : ¬ m' = m := fun h => hk h.symm
+    simp [hk, Refine.mergedTrack_mmsi, this]
 
 /-- events fired by one step, per MMSI: the life-cycle acceptor advances consistently with
 membership in the dict -/
 theorem life_step (r : TrkRun) (hinv : TrkInv r.st) (op : TrkOp) (m : Int)
     (h : lifeRun m r.events = some (r.st.tracks.any (·.mmsi = m))) :
     lifeRun m (trkStep r op).events = some ((trkStep r op).st.tracks.any (·.mmsi = m)) := by
-  sorry
+  cases op with
+  | tick t => exact h
+  | setTtl ttl => exact h
+  | cleanup =>
+    rw [Refine.trkStep_cleanup]
+    show lifeRun m (r.events ++ (cleanup r.st r.now).2) = some ((cleanup r.st r.now).1.tracks.any _)
+    rw [Refine.lifeRun_append, h]
+    exact Refine.life_cleanup _ hinv _ _
+  | pop m' =>
+    rw [Refine.trkStep_pop]
+    show lifeRun m (r.events ++ (popTrack r.st m').2.1) = some ((popTrack r.st m').1.tracks.any _)
+    rw [Refine.lifeRun_append, h, Refine.popTrack_fst, Refine.popTrack_events]
+    show _ = some ((r.st.tracks.filter (·.mmsi ≠ m')).any (·.mmsi = m))
+    rw [Refine.any_key_eq (r.st.tracks.filter (·.mmsi ≠ m')), Refine.find_filter_ne]
+    by_cases hk : m = m'
+    · subst hk
+      cases hany : r.st.tracks.any (·.mmsi = m) <;> simp [lifeStep]
+    · have : ¬ m' = m := fun h => hk h.symm
+      rw [Refine.any_key_eq]
+      cases r.st.tracks.any (·.mmsi = m') <;> simp [hk, this]
+  | update m' attrs ts =>
+    rw [Refine.trkStep_update]
+    show lifeRun m (r.events ++ (update r.st m' attrs (ts.getD r.now) r.now).2.1) =
+      some ((update r.st m' attrs (ts.getD r.now) r.now).1.tracks.any _)
+    rw [Refine.lifeRun_append, h]
+    cases hacc : (update r.st m' attrs (ts.getD r.now) r.now).2.2 with
+    | false =>
+      have hr := update_rejected _ _ _ _ _ hacc
+      rw [hr.1, hr.2]; rfl
+    | true =>
+      have hup := Refine.update_accepted' _ _ _ _ _ hacc
+      have hinv1 := Refine.inv_insert _ hinv _ _ _ _ hacc
+      have hc := Refine.life_cleanup _ hinv1 r.now m
+      rw [Refine.insert_any_key] at hc
+      rw [hup.1, hup.2, ← hc]
+      by_cases hk : m = m'
+      · subst hk
+        rw [Refine.any_key_eq]
+        cases r.st.tracks.find? (·.mmsi = m) <;> simp [lifeStep]
+      · have : ¬ m' = m := fun h => hk h.symm
+        simp [hk, this]
+
+theorem Refine.life_run_gen (ops : List TrkOp) (m : Int) : ∀ (r : TrkRun), TrkInv r.st →
+    lifeRun m r.events = some (r.st.tracks.any (·.mmsi = m)) →
+    lifeRun m (ops.foldl trkStep r).events = some ((ops.foldl trkStep r).st.tracks.any (·.mmsi = m)) := by
+  induction ops with
+  | nil => intro r _ h; exact h
+  | cons op ops ih =>
+    intro r hinv h
+    exact ih _ (inv_step r hinv op) (life_step r hinv op m h)
 
 /-- **C15 core.** For every history and every MMSI the events form
 (CREATED UPDATED* DELETED)* (CREATED UPDATED*)? and the acceptor ends "alive" iff the MMSI has a
 track. -/
 theorem life_run (ordered : Bool) (ttl : Option Int) (ops : List TrkOp) (m : Int) :
     lifeRun m (trkRun ordered ttl ops).events =
-      some ((trkRun ordered ttl ops).st.tracks.any (·.mmsi = m)) := by
-  sorry
+      some ((trkRun ordered ttl ops).st.tracks.any (·.mmsi = m)) :=
+  Refine.life_run_gen ops m _ (inv_init ordered ttl) rfl
 
 end Model
